@@ -56,56 +56,95 @@ static void outLik(Out& o, std::pair<bool, VectorXd> l) {
     o.s(l.first ? "lik" : "nolik"); o.n(l.first ? l.second.size() : 0); if (l.first) o.m(l.second);
 }
 
-// sukf n msz bs red k alpha beta kappa hkind failM failP failI H h0 y R means covs outw
+// One correction object of each kind, driven through one or several successive correct() + getLikelihood()
+// calls (component count, measurement, belief and failing calls vary from call to call).
+//   sukf  n msz bs red k alpha beta kappa hkind failM failP failI H h0 y R means covs outw
+//   sukfs n msz bs red alpha beta kappa hkind H h0 R ncalls { k failM failP failI y means covs outw }*
+struct Call { long k; bool failM, failP, failI; VectorXd y; MatrixXd means, covs; VectorXd outw; };
+
+static std::string runCalls(long n, long msz, long bs, bool red, double alpha, double beta, double kappa, int kind,
+                            const MatrixXd& H, const VectorXd& h0, const MatrixXd& R, const std::vector<Call>& calls) {
+    const bool divides = (msz % bs) == 0;
+    HModel* ms = new HModel(kind, H, h0, VectorXd::Zero(msz), R, false, false, false);
+    SUKFCorrection sukfc(std::unique_ptr<AdditiveMeasurementModel>(ms), alpha, beta, kappa, (std::size_t)bs, red);
+    // the standard additive correction is given the full covariance the encoding stands for
+    HModel* mu = nullptr; std::unique_ptr<UKFCorrection> ukfc;
+    if (divides) {
+        MatrixXd Rfull = R;
+        if (red) { Rfull = MatrixXd::Zero(msz, msz); for (long i = 0; i < msz / bs; ++i) Rfull.block(bs * i, bs * i, bs, bs) = R; }
+        mu = new HModel(kind, H, h0, VectorXd::Zero(msz), Rfull, false, false, false);
+        ukfc.reset(new UKFCorrection(std::unique_ptr<AdditiveMeasurementModel>(mu), alpha, beta, kappa));
+    }
+    sigma_point::UTWeight w((std::size_t)n, alpha, beta, kappa);
+    Out o; o.s("ok");
+    bool firstCall = true;
+    for (const Call& c : calls) {
+        if (!firstCall) o.s("|");
+        GaussianMixture pred(c.k, n), corrS(c.k, n), corrU(c.k, n);
+        pred.mean() = c.means; pred.covariance() = c.covs;
+        for (GaussianMixture* g : { &corrS, &corrU }) { g->mean().setConstant(12345.0); g->covariance().setConstant(-54321.0); g->weight() = c.outw; }
+        MatrixXd m0 = pred.mean(), c0 = pred.covariance(), w0 = pred.weight();
+        for (HModel* m : { ms, mu }) if (m) { m->y_ = c.y; m->failM_ = c.failM; m->failP_ = c.failP; m->failI_ = c.failI; m->X_.resize(0, 0); m->Y_.resize(0, 0); }
+        std::pair<bool, VectorXd> likS0 = firstCall ? sukfc.getLikelihood() : std::make_pair(false, VectorXd());
+        sukfc.correct(pred, corrS);
+        std::pair<bool, VectorXd> likS = sukfc.getLikelihood();
+        o.s("S"); o.m(corrS.mean()); o.m(corrS.covariance()); o.m(corrS.weight()); outLik(o, likS);
+        o.s(likS0.first ? "prelik" : "noprelik");
+        if (divides) {
+            ukfc->correct(pred, corrU);
+            // After a failing call the likelihood of the standard correction is not queried: its stored
+            // innovations are stale while predicted_meas_ has been reset (size assertion; outside C05).
+            const bool faulty = c.failM || c.failP || c.failI;
+            o.s("U"); o.m(corrU.mean()); o.m(corrU.covariance());
+            outLik(o, faulty ? std::make_pair(false, VectorXd()) : ukfc->getLikelihood());
+        } else {
+            o.s("Unone");
+        }
+        bool same = vh::same_bits(m0, pred.mean()) && vh::same_bits(c0, pred.covariance()) && vh::same_bits(w0, pred.weight());
+        o.s("W"); o.n(w.mean.size()); o.m(w.mean); o.m(w.covariance); o.d(w.c);
+        o.s("X"); o.n(ms->X_.cols()); o.m(ms->X_);
+        o.s("Y"); o.n(ms->Y_.cols()); o.m(ms->Y_);
+        o.s(same ? "in-same" : "in-modified");
+        firstCall = false;
+    }
+    return o.str();
+}
+
+static Call readCall(Toks& t, long n, long msz) {
+    Call c; c.k = t.nat(); c.failM = t.flag(); c.failP = t.flag(); c.failI = t.flag();
+    c.y = t.vec(msz); c.means = t.mat(n, c.k); c.covs = t.mat(n, n * c.k); c.outw = t.vec(c.k);
+    return c;
+}
+
 static std::string sukf(Toks& t) {
     long n = t.nat(), msz = t.nat(), bs = t.nat(); bool red = t.flag(); long k = t.nat();
     double alpha = t.dbl(), beta = t.dbl(), kappa = t.dbl();
     int kind = (int)t.nat(); bool failM = t.flag(), failP = t.flag(), failI = t.flag();
     MatrixXd H = t.mat(msz, n); VectorXd h0 = t.vec(msz), y = t.vec(msz);
     MatrixXd R = red ? t.mat(bs, bs) : t.mat(msz, msz);
-    GaussianMixture pred(k, n), corrS(k, n), corrU(k, n);
-    pred.mean() = t.mat(n, k); pred.covariance() = t.mat(n, n * k);
-    VectorXd outw = t.vec(k);
+    Call c; c.k = k; c.failM = failM; c.failP = failP; c.failI = failI; c.y = y;
+    c.means = t.mat(n, k); c.covs = t.mat(n, n * k); c.outw = t.vec(k);
     t.done();
-    for (GaussianMixture* g : { &corrS, &corrU }) { g->mean().setConstant(12345.0); g->covariance().setConstant(-54321.0); g->weight() = outw; }
-    MatrixXd m0 = pred.mean(), c0 = pred.covariance(), w0 = pred.weight();
-    const bool divides = (msz % bs) == 0;
+    return runCalls(n, msz, bs, red, alpha, beta, kappa, kind, H, h0, R, { c });
+}
 
-    // the serial correction
-    HModel* ms = new HModel(kind, H, h0, y, R, failM, failP, failI);
-    SUKFCorrection sukfc(std::unique_ptr<AdditiveMeasurementModel>(ms), alpha, beta, kappa, (std::size_t)bs, red);
-    std::pair<bool, VectorXd> likS0 = sukfc.getLikelihood();
-    sukfc.correct(pred, corrS);
-    std::pair<bool, VectorXd> likS = sukfc.getLikelihood();
-    bool same = vh::same_bits(m0, pred.mean()) && vh::same_bits(c0, pred.covariance()) && vh::same_bits(w0, pred.weight());
-
-    Out o; o.s("ok");
-    o.s("S"); o.m(corrS.mean()); o.m(corrS.covariance()); o.m(corrS.weight()); outLik(o, likS);
-    o.s(likS0.first ? "prelik" : "noprelik");
-
-    // the standard additive correction, given the full covariance the encoding stands for
-    if (divides) {
-        MatrixXd Rfull = R;
-        if (red) { Rfull = MatrixXd::Zero(msz, msz); for (long i = 0; i < msz / bs; ++i) Rfull.block(bs * i, bs * i, bs, bs) = R; }
-        HModel* mu = new HModel(kind, H, h0, y, Rfull, failM, failP, failI);
-        UKFCorrection ukfc(std::unique_ptr<AdditiveMeasurementModel>(mu), alpha, beta, kappa);
-        ukfc.correct(pred, corrU);
-        o.s("U"); o.m(corrU.mean()); o.m(corrU.covariance()); outLik(o, ukfc.getLikelihood());
-    } else {
-        o.s("Unone");
-    }
-    same = same && vh::same_bits(m0, pred.mean()) && vh::same_bits(c0, pred.covariance()) && vh::same_bits(w0, pred.weight());
-    sigma_point::UTWeight w((std::size_t)n, alpha, beta, kappa);
-    o.s("W"); o.n(w.mean.size()); o.m(w.mean); o.m(w.covariance); o.d(w.c);
-    o.s("X"); o.n(ms->X_.cols()); o.m(ms->X_);
-    o.s("Y"); o.n(ms->Y_.cols()); o.m(ms->Y_);
-    o.s(same ? "in-same" : "in-modified");
-    return o.str();
+static std::string sukfs(Toks& t) {
+    long n = t.nat(), msz = t.nat(), bs = t.nat(); bool red = t.flag();
+    double alpha = t.dbl(), beta = t.dbl(), kappa = t.dbl();
+    int kind = (int)t.nat();
+    MatrixXd H = t.mat(msz, n); VectorXd h0 = t.vec(msz);
+    MatrixXd R = red ? t.mat(bs, bs) : t.mat(msz, msz);
+    long ncalls = t.nat();
+    std::vector<Call> calls;
+    for (long i = 0; i < ncalls; ++i) calls.push_back(readCall(t, n, msz));
+    t.done();
+    return runCalls(n, msz, bs, red, alpha, beta, kappa, kind, H, h0, R, calls);
 }
 
 int main() {
     return vh::run([](const std::string& op, Toks& t, std::string& out) {
         if (op == "sukf") { out = sukf(t); return true; }
+        if (op == "sukfs") { out = sukfs(t); return true; }
         return false;
     });
 }
